@@ -10,6 +10,7 @@ import z3
 
 CVC5 = "/usr/bin/cvc5"
 BOTH = os.environ.get("PYVC_BOTH_BACKENDS") == "1"
+CVC5_SECOND_OPINION_MS = 15000  # budget of the independent second opinion in the thorough tier (a time-out is reported, not a verdict)
 STATS = {"z3_calls": 0, "cvc5_calls": 0, "z3_time": 0.0, "cvc5_time": 0.0, "disagreements": 0}
 
 
@@ -62,7 +63,7 @@ def prove(hyps, goal, timeout_ms=10000):
     r, s = _z3_check(hyps, goal, timeout_ms)
     if r == z3.unsat:
         if BOTH:
-            c = _cvc5_check(s, timeout_ms)
+            c = _cvc5_check(s, min(timeout_ms, CVC5_SECOND_OPINION_MS))
             if c == "sat":
                 STATS["disagreements"] += 1
                 return ("undecided", "z3:unsat/cvc5:sat", None, "back ends disagree")
